@@ -13,6 +13,7 @@ A ProgLayer's `_handle_event` interprets its program: event kind -> list of acti
 The handler records which event it handles and which value every `yield` gave back.
 The same programs + schedule go to the Lean model driver (`mv_c04`), which runs Model/C04.lean.
 """
+import functools
 import itertools
 from dataclasses import dataclass
 from typing import Any
@@ -22,11 +23,9 @@ from mitmproxy import connection, options
 from mitmproxy.connection import ConnectionState
 from mitmproxy.proxy import commands, context, events, layer
 
-NKINDS = 11          # plain labels 0..6, completion of: own cmd (7), child0 subtree (8), child1 subtree (9), other (10)
+NKINDS = 12          # plain labels 0..6, completion of: own cmd (7), child 0/1/2 subtree (8/9/10), other (11)
 NPLAIN = 7           # 0 Start, 1 Data(client), 2 Data(server), 3 Closed(client), 4 Closed(server), 5 custom A, 6 custom B
-CHILDREN = {1: [2, 3], 2: [4], 3: [5], 4: [], 5: []}
-SUBTREE = {1: [[2, 4], [3, 5]], 2: [[4]], 3: [[5]], 4: [], 5: []}
-LAYERS = [1, 2, 3, 4, 5]
+MAXDEPTH = 4         # levels of ProgLayers (the Lean driver instantiates Prog.TS 3)
 
 
 class PCmd(commands.Command):
@@ -74,24 +73,28 @@ def ev_str(e):
 
 
 class ProgLayer(layer.Layer):
-    def __init__(self, ctx, idx, prog, rec):
+    """interprets one program table per handler; action ["sw", m] re-binds `self._handle_event` the way real
+    layers switch state (`self._handle_event = self.state_x`)"""
+    def __init__(self, ctx, idx, tabs, route, rec):
         super().__init__(ctx)
-        self.idx, self.prog, self.rec = idx, prog, rec
+        self.idx, self.tabs, self.route, self.rec = idx, tabs, route, rec
         self.kids = []
         self.ctr = 0
         self.seen = 0
+        self.bound = 0               # number of the handler bound by the last executed "sw"
         self.waiting = None          # the handler's own view: command whose `yield` has not returned yet
         self.log = []                # ("h", event) | ("s", n, value)
         self.arrivals = []           # (event, is_own_completion, handler_was_waiting)
         self.oracle_notes = []
+        self._handlers = [functools.partial(self._run, m) for m in range(max(2, len(tabs)))]
 
     def kind(self, event):
         if isinstance(event, events.CommandCompleted):
             o = cmd_key(event.command)[0]
             if o == self.idx: return 7
-            for i, sub in enumerate(SUBTREE[self.idx]):
-                if o in sub: return 8 + i
-            return 10
+            for i, sub in enumerate(self.route):
+                if o in sub: return 8 + i if i < 3 else 11
+            return 11
         return event._c04label
 
     def handle_event(self, event):
@@ -101,13 +104,23 @@ class ProgLayer(layer.Layer):
         return super().handle_event(event)
 
     def _handle_event(self, event):
+        return self._run(0, event)
+
+    def _run(self, mode, event):
         if self.waiting is not None:
             self.oracle_notes.append("layer %d started handling %s while waiting for %s" % (self.idx, ev_str(event), cmd_str(self.waiting)))
+        if mode != self.bound:
+            self.oracle_notes.append("layer %d: %s handled by handler %d but the handler bound at that time is %d" % (self.idx, ev_str(event), mode, self.bound))
         self.log.append(("h", event))
-        for a in self.prog[self.kind(event)]:
+        tab = self.tabs[mode] if mode < len(self.tabs) else []
+        k = self.kind(event)
+        for a in (tab[k] if k < len(tab) else []):
             if a[0] == "ch":
                 if a[1] < len(self.kids):
                     yield from self.kids[a[1]].handle_event(event)
+            elif a[0] == "sw":
+                self.bound = a[1]
+                self._handle_event = self._handlers[a[1]]
             else:
                 cmd = PCmd(self.idx, self.ctr, a[1], self.seen, bool(a[2]))
                 self.ctr += 1
@@ -143,17 +156,48 @@ def make_event(ctx, label, uid):
     return e
 
 
+def routes(tree):
+    """for every node (list position) the owners of each child's subtree, children in list order"""
+    kids = {n["idx"]: [] for n in tree}
+    for n in tree:
+        if n["parent"]: kids[n["parent"]].append(n["idx"])
+    def sub(i):
+        out = [i]
+        for k in kids[i]: out += sub(k)
+        return out
+    return {n["idx"]: [sub(k) for k in kids[n["idx"]]] for n in tree}, kids
+
+
+def snap_layer(ly):
+    p = cmd_str(ly._paused.command) if ly._paused else "-"
+    return "%s:%s:m%d" % (p, ";".join(ev_str(e) for e in ly._paused_event_queue), ly.bound)
+
+
+def log_str(ly):
+    ent = []
+    for e in ly.log:
+        if e[0] == "h": ent.append("h" + ev_str(e[1]))
+        else: ent.append("s%dr%d" % (e[1], e[2] or 0))
+    return ";".join(ent)
+
+
 def run_case(case):
     """drive the real layers; returns (canonical trace string, oracle failures)"""
+    if case.get("prim"):
+        return run_prim(case)
     ctx = make_ctx()
     rec = {"cur": {}}
+    tree = case["tree"]
+    rt, kids = routes(tree)
     L = {}
-    for i in LAYERS:
-        L[i] = ProgLayer(ctx, i, case["progs"][i - 1], rec)
-    for i in LAYERS:
-        L[i].kids = [L[j] for j in CHILDREN[i]]
+    for n in tree:
+        L[n["idx"]] = ProgLayer(ctx, n["idx"], n["tabs"], rt[n["idx"]], rec)
+    for n in tree:
+        L[n["idx"]].kids = [L[j] for j in kids[n["idx"]]]
+    order = [n["idx"] for n in tree]            # preorder
+    root = L[order[0]]
     nl = None
-    top = L[1]
+    top = root
     if case["nl"]:
         nl = layer.NextLayer(ctx, ask_on_start=bool(case["aos"]))
         top = nl
@@ -172,9 +216,8 @@ def run_case(case):
                                           ";".join(ev_str(e) for e in nl.events), 1 if handed else 0))
         else:
             parts.append("x")
-        for i in LAYERS:
-            p = cmd_str(L[i]._paused.command) if L[i]._paused else "-"
-            parts.append("%s:%s" % (p, ";".join(ev_str(e) for e in L[i]._paused_event_queue)))
+        for i in order:
+            parts.append(snap_layer(L[i]))
         return "|".join(parts)
 
     for uid, st in enumerate(case["sched"]):
@@ -184,6 +227,8 @@ def run_case(case):
         else:
             pool = pending if st[0] == "b" else emitted
             if not pool:
+                # the schedule asks to complete a command but none has been emitted / is pending: nothing is
+                # delivered on either side (the model driver prints the same token)
                 steps_out.append("skip"); continue
             cmd = pool[st[1] % len(pool)]
             r = st[2]
@@ -192,16 +237,13 @@ def run_case(case):
                 if cmd in pending:
                     hookdone = True
                     if r % 2 == 1:
-                        nl.layer = L[1]         # the addon's decision, made while the hook is pending
+                        nl.layer = root         # the addon's decision, made while the hook is pending
                 ev = events.HookCompleted(cmd)
-                # the model carries the decision in the reply value; render the reply the same way on both sides
-                ev_reply_for_trace = r
+                ev.reply = r if r else None     # the model carries the decision in the reply; NextLayer ignores it
             elif isinstance(cmd, PCmd):
                 ev = PCmdCompleted(cmd, r if r else None)
             else:  # NextLayer's CloseConnection: any completion class will do, it is never waited on
                 ev = PCmdCompleted.__new__(PCmdCompleted); ev.command = cmd; ev.reply = r if r else None
-            if isinstance(cmd, layer.NextLayerHook):
-                ev.reply = r if r else None     # HookCompleted.reply is a plain dataclass field; NextLayer ignores it
             if cmd in pending: pending.remove(cmd)
         top_arrivals.append((ev, hookdone))
         out = []
@@ -214,26 +256,51 @@ def run_case(case):
             emitted.append(c)
             if c.blocking is not False: pending.append(c)
         steps_out.append("[%s]%s" % (";".join(cmd_str(c) for c in out), snap()))
-        fails += step_oracle(L, nl, out)
+        fails += step_oracle(L, order)
 
-    logs = []
-    for i in LAYERS:
-        ent = []
-        for e in L[i].log:
-            if e[0] == "h": ent.append("h" + ev_str(e[1]))
-            else: ent.append("s%dr%d" % (e[1], e[2] or 0))
-        logs.append(";".join(ent))
-    trace = "#".join(steps_out) + "@" + "|".join(logs)
-    fails += final_oracle(L, nl, top_arrivals)
+    trace = "#".join(steps_out) + "@" + "|".join(log_str(L[i]) for i in order)
+    fails += final_oracle(L, order, root, nl, top_arrivals)
     return trace, fails
 
 
+def run_prim(case):
+    """the generator primitives of ONE real layer, called directly (name-mangled private methods)"""
+    ctx = make_ctx()
+    ly = ProgLayer(ctx, 1, case["tabs"], [], {"cur": {}})
+    steps = []
+    fails = []
+    for uid, op in enumerate(case["ops"]):
+        k, v = op
+        if k == "p":
+            if ly._paused: steps.append("skip"); continue
+            out = list(ly._Layer__process(ly._handle_event(make_event(ctx, v, uid))))
+        elif k == "q":
+            ly._paused_event_queue.append(make_event(ctx, v, uid)); out = []
+        elif k == "k":
+            if not ly._paused: steps.append("skip"); continue
+            ly.rec["cur"][1] = None
+            out = list(ly._Layer__continue(PCmdCompleted(ly._paused.command, v if v else None)))
+        elif k == "e":
+            out = list(ly.handle_event(make_event(ctx, v, uid)))
+        else:
+            if not ly._paused: steps.append("skip"); continue
+            out = list(ly.handle_event(PCmdCompleted(ly._paused.command, v if v else None)))
+        steps.append("[%s]%s" % (";".join(cmd_str(c) for c in out), snap_layer(ly)))
+        # the sentences that also hold when the primitives are called directly
+        fails += ly.oracle_notes; ly.oracle_notes = []
+        p = ly._paused.command if ly._paused else None
+        if p is not ly.waiting:
+            fails.append("layer is paused on %s but its handler waits for %s" % (p and cmd_str(p), ly.waiting and cmd_str(ly.waiting)))
+    return "#".join(steps) + "@" + log_str(ly), fails
+
+
 # ---- the property, sentence by sentence, over the recorded behaviour of the real layers (no model) -------------
-def step_oracle(L, nl, out):
+def step_oracle(L, order):
     f = []
-    for i in LAYERS:
+    for i in order:
         ly = L[i]
-        # "never starts handling a new event while it waits for a completion"
+        # "never starts handling a new event while it waits for a completion"; and every event is handled by
+        # the handler bound at the time it is (re)played
         f += ly.oracle_notes; ly.oracle_notes = []
         # "Blocking one layer never blocks the layers above it": a layer is paused iff its OWN handler waits
         p = ly._paused.command if ly._paused else None
@@ -246,9 +313,9 @@ def step_oracle(L, nl, out):
     return f
 
 
-def final_oracle(L, nl, top_arrivals):
+def final_oracle(L, order, root, nl, top_arrivals):
     f = []
-    for i in LAYERS:
+    for i in order:
         ly = L[i]
         # "handles every incoming event exactly once and in arrival order" (own completions resume instead)
         want = [e for (e, own, _) in ly.arrivals if not own]
@@ -274,18 +341,35 @@ def final_oracle(L, nl, top_arrivals):
         # "events that arrive before a protocol has been chosen reach the chosen layer in arrival order"
         want = [e for (e, hookdone) in top_arrivals if not hookdone]
         if nl._handle is not None:
-            got = [e for (e, _, _) in L[1].arrivals]
+            got = [e for (e, _, _) in root.arrivals]
         else:
             got = list(nl.events) + list(nl._paused_event_queue)
-            if L[1].arrivals: f.append("child received events before it was chosen")
+            if root.arrivals: f.append("child received events before it was chosen")
         if len(want) != len(got) or any(a is not b for a, b in zip(want, got)):
             f.append("nextlayer: child/buffer has %s, arrivals were %s" % ([ev_str(e) for e in got], [ev_str(e) for e in want]))
     return f
 
 
 # ---- encoding for the Lean driver -----------------------------------------------------------------------------
+def enc_act(a):
+    if a[0] == "ch": return "c%d" % a[1]
+    if a[0] == "sw": return "s%d" % a[1]
+    return "y%db%d" % (a[1], a[2])
+
+
 def enc_prog(p):
-    return "/".join(",".join(("c%d" % a[1]) if a[0] == "ch" else ("y%db%d" % (a[1], a[2])) for a in acts) or "-" for acts in p)
+    return "/".join(",".join(enc_act(a) for a in acts) or "-" for acts in p)
+
+
+def enc_tabs(tabs):
+    return "~".join(enc_prog(t) for t in tabs)
+
+
+def enc_tree(tree):
+    rt, _ = routes(tree)
+    return "|".join("%d:%d:%s:%s" % (n["idx"], n["parent"],
+                                     "+".join(".".join(str(x) for x in sub) for sub in rt[n["idx"]]) or "-",
+                                     enc_tabs(n["tabs"])) for n in tree)
 
 
 def enc_sched(s):
@@ -293,8 +377,24 @@ def enc_sched(s):
 
 
 # ---- generation -------------------------------------------------------------------------------------------------
-def rand_prog(rng, idx, pblock, pchild):
-    nk = len(CHILDREN[idx])
+def rand_shape(rng):
+    """random tree: list of (idx, parent) in preorder, depth <= MAXDEPTH, branching <= 3"""
+    n = rng.choice([1, 2, 3, 3, 4, 5, 5, 6, 7, 8])
+    parent, depth, nk = {1: 0}, {1: 1}, {1: 0}
+    for i in range(2, n + 1):
+        cands = [j for j in parent if depth[j] < MAXDEPTH and nk[j] < 3]
+        p = rng.choice(cands)
+        parent[i] = p; depth[i] = depth[p] + 1; nk[i] = 0; nk[p] += 1
+    kids = {i: [j for j in parent if parent[j] == i] for i in parent}
+    out = []
+    def pre(i):
+        out.append((i, parent[i]))
+        for k in kids[i]: pre(k)
+    pre(1)
+    return out, kids
+
+
+def rand_table(rng, nk, pblock, pchild, nmodes):
     table = []
     for kind in range(NKINDS):
         acts = []
@@ -302,7 +402,7 @@ def rand_prog(rng, idx, pblock, pchild):
         for _ in range(ny):
             acts.append(["y", rng.randint(0, 5), 1 if rng.chance(pblock) else 0])
         if nk:
-            if kind in (8, 9):
+            if kind in (8, 9, 10):
                 if kind - 8 < nk and rng.chance(0.9):
                     acts.insert(rng.randint(0, len(acts)), ["ch", kind - 8])
             elif kind != 7:
@@ -310,9 +410,20 @@ def rand_prog(rng, idx, pblock, pchild):
                     if rng.chance(pchild):
                         acts.insert(rng.randint(0, len(acts)), ["ch", c])
                 if rng.chance(0.05):
-                    acts.insert(rng.randint(0, len(acts)), ["ch", rng.randint(0, 1)])
+                    acts.insert(rng.randint(0, len(acts)), ["ch", rng.randint(0, 2)])
+        if nmodes > 1 and rng.chance(0.3):
+            acts.insert(rng.randint(0, len(acts)), ["sw", rng.randint(0, nmodes - 1)])
         table.append(acts)
     return table
+
+
+def rand_tree(rng, pblock, pchild):
+    shape, kids = rand_shape(rng)
+    tree = []
+    for idx, par in shape:
+        nm = 2 if rng.chance(0.4) else 1
+        tree.append({"idx": idx, "parent": par, "tabs": [rand_table(rng, len(kids[idx]), pblock, pchild, nm) for _ in range(nm)]})
+    return tree
 
 
 def rand_sched(rng, n, labels):
@@ -325,47 +436,79 @@ def rand_sched(rng, n, labels):
     return s
 
 
+FIXED_SHAPE = [(1, 0), (2, 1), (4, 2), (3, 1), (5, 3)]       # 1-(2-(4), 3-(5)), preorder
+FIXED_KIDS = {1: 2, 2: 1, 3: 1, 4: 0, 5: 0}
+
+
+def _fwd(nk):
+    return [["ch", c] for c in range(nk)]
+
+
 SMALL_PROGS = [
     # one blocking command per data event, children forwarded; a second blocking command on event 5
-    lambda i: [[["y", 0, 0]] + [["ch", c] for c in range(len(CHILDREN[i]))],
-               [["y", 1, 1]] + [["ch", c] for c in range(len(CHILDREN[i]))] + [["y", 2, 0]],
-               [], [["y", 3, 0]], [],
-               [["ch", c] for c in range(len(CHILDREN[i]))] + [["y", 4, 1], ["y", 5, 1]],
-               [["y", 0, 0]],
-               [["y", 1, 0]], [["ch", 0]] if CHILDREN[i] else [], [["ch", 1]] if len(CHILDREN[i]) > 1 else [], []],
+    lambda nk: [[[["y", 0, 0]] + _fwd(nk), [["y", 1, 1]] + _fwd(nk) + [["y", 2, 0]], [], [["y", 3, 0]], [],
+                 _fwd(nk) + [["y", 4, 1], ["y", 5, 1]], [["y", 0, 0]],
+                 [["y", 1, 0]], [["ch", 0]] if nk else [], [["ch", 1]] if nk > 1 else [], [], []]],
     # blocking first, then forward (the same event reaches the child after the resume)
-    lambda i: [[], [["y", 1, 1]] + [["ch", c] for c in range(len(CHILDREN[i]))], [["y", 2, 1], ["y", 2, 1]], [], [],
-               [["y", 4, 0]] + [["ch", c] for c in range(len(CHILDREN[i]))], [],
-               [["y", 1, 1]], [["ch", 0]] if CHILDREN[i] else [], [["ch", 1]] if len(CHILDREN[i]) > 1 else [], [["y", 3, 1]]],
+    lambda nk: [[[], [["y", 1, 1]] + _fwd(nk), [["y", 2, 1], ["y", 2, 1]], [], [], [["y", 4, 0]] + _fwd(nk), [],
+                 [["y", 1, 1]], [["ch", 0]] if nk else [], [["ch", 1]] if nk > 1 else [], [], [["y", 3, 1]]]],
+    # two handlers: event 5 re-binds `_handle_event` (handler 1 answers data without blocking and switches back on
+    # event 0); a queued event 5 followed by queued data must be replayed by the handler bound at ITS replay time
+    lambda nk: [[[["y", 0, 0]] + _fwd(nk), [["y", 1, 1]] + _fwd(nk), [], [], [], [["sw", 1], ["y", 4, 0]] + _fwd(nk), [],
+                 [], [["ch", 0]] if nk else [], [["ch", 1]] if nk > 1 else [], [], []],
+                [[["sw", 0], ["y", 0, 0]] + _fwd(nk), [["y", 5, 0]] + _fwd(nk), [], [], [], [["y", 3, 1]] + _fwd(nk), [],
+                 [], [["ch", 0]] if nk else [], [["ch", 1]] if nk > 1 else [], [], []]],
 ]
+
+
+def small_tree(pi):
+    return [{"idx": i, "parent": p, "tabs": SMALL_PROGS[pi](FIXED_KIDS[i])} for i, p in FIXED_SHAPE]
 
 
 class Check(PropertyCheck):
     prop = "C04"
     design_ref = "§5 C04"
-    level_text = ("Lean theorems handled_eq_arrivals, no_handle_while_paused (+ scan_pause_then_resume), "
-                  "resume_gets_own_reply (+ resumes_are_arrivals), emitted_never_blocking_true, "
-                  "child_block_does_not_block_parent, parent_pauses_only_on_own_commands, nextlayer_replay_in_order about an "
-                  "executable model of Layer.handle_event/__process/__continue (generators as resumption trees, commands "
-                  "with identity, the _paused slot and _paused_event_queue), of a parent layer relaying child layers via "
-                  "`yield from child.handle_event`, and of NextLayer — for EVERY handler, EVERY state and EVERY schedule of "
-                  "events and completions (induction over the schedule, no bound). The model is tied to the real "
-                  "Layer/NextLayer classes by running generated handler programs on a real 5-layer tree (+ real NextLayer) "
-                  "and in the compiled model, comparing after every step the emitted commands with their blocking "
-                  "attribute, every layer's _paused command and _paused_event_queue, NextLayer.events/_handle, and per "
-                  "layer the sequence of _handle_event calls and of values sent into the generators.")
+    level_text = ("Lean theorems, for EVERY handler (every _handle_event generator as a resumption tree, incl. handlers that "
+                  "re-bind themselves), EVERY state and EVERY schedule of events and completions (induction, no bound): "
+                  "handled_eq_arrivals, no_handle_while_paused (+ scan_pause_then_resume), resume_gets_own_reply "
+                  "(+ resumes_are_arrivals), emitted_never_blocking_true, replay_sequential (the __continue loop handles "
+                  "the buffered events one by one in order, each by the handler applied to the state left by the previous "
+                  "one, the rest stays queued in order and only if the layer paused again), "
+                  "child_block_does_not_block_parent, parent_pauses_only_on_own_commands, children_step / "
+                  "children_invariant (a parent touches its children only through handle_event, also via a suspended "
+                  "generator), tree_step / tree_every_layer_in_order (layer trees of ARBITRARY depth and branching with "
+                  "re-bindable handlers: every layer at every depth satisfies the single-layer invariant w.r.t. its own "
+                  "arrivals; induction over the schedule and over the tree), nextlayer_replay_in_order (for any child "
+                  "handler, so also a whole tree). Model = Layer.handle_event/__process/__continue, parent relays via "
+                  "`yield from child.handle_event`, NextLayer._handle_event/_ask/handle_event incl. the hand-over. Tie: "
+                  "generated handler programs (with handler re-binding actions) run on real Layer subclasses arranged in "
+                  "random trees (<=8 layers, height <=4, branching <=3) behind an optional real NextLayer and in the compiled "
+                  "model (the same Prog.TS/Prog.HT the tree theorem is about); compared after every step: emitted commands "
+                  "with blocking attribute, every layer's _paused command, _paused_event_queue and bound handler, "
+                  "NextLayer.events/_handle; at the end per layer the _handle_event calls and the values sent into the "
+                  "generators. Separately the private primitives Layer.__process / Layer.__continue / queue append are "
+                  "called one by one on a real layer (also in states handle_event never produces) against the model's "
+                  "handleFresh / resumeWith / enqueue.")
     level_note = ("trusted: Lean kernel; Python generator semantics (send/StopIteration/yield from) are the modelled "
                   "primitive; commands yielded by handle_event are consumed completely and non-reentrantly before the "
                   "next event is delivered (what proxy/server.py does); the addon's next-layer decision is modelled as "
                   "part of the hook's reply; proxy_debug logging (Layer.debug, off by default) is not modelled; ghost fields "
-                  "log/arrived of the model carry the theorems' vocabulary; the tie is differential (random programs x "
-                  "random/exhaustive schedules), not a proof about the Python text.")
+                  "log/arrived of the model carry the theorems' vocabulary; the tie is differential (random programs/trees x "
+                  "random/exhaustive schedules), not a proof about the Python text. Not proved: an end-to-end equivalence "
+                  "with a sequential blocking interpreter (the 'looks like blocking code' reading) — replay_sequential "
+                  "covers the replay loop, handled_eq_arrivals the order, but the two are not composed into one theorem. "
+                  "Abstain branches of the harness: a schedule step that names a command when none was emitted/pending "
+                  "delivers nothing on both sides ('skip' token, compared); primitive ops whose precondition fails "
+                  "(process while paused, continue while idle) are skipped on both sides; no case is ever dropped "
+                  "(no Skip()), known() excuses nothing (no findings).")
     technique = "Lean 4 proof (induction over schedules, for all handlers) + program-interpreting correspondence on real Layer/NextLayer objects"
-    rule = ("a case = 5 handler programs (event kind -> <=6 yields with blocking flags, interleaved with child relays; "
-            "tree of depth 3 with two siblings) + optional real NextLayer in front + a schedule of <=40 steps over "
-            "{plain event, completion of a pending blocking command, completion of any emitted command (stale / "
-            "non-blocking / sibling / matching)}; small fixed programs x all schedules up to a length first. "
-            "distinct = distinct (programs, schedule); non-trivial = some layer paused and some event was queued.")
+    rule = ("a case = a random layer tree (1..8 layers, height <=4, branching <=3; per layer 1-2 handler tables: event kind "
+            "-> <=6 yields with blocking flags, child relays and handler re-bindings) + optional real NextLayer in front + "
+            "a schedule of <=40 steps over {plain event, completion of a pending blocking command, completion of any "
+            "emitted command (stale / non-blocking / sibling / matching)}; three fixed program sets x all schedules up "
+            "to a length first; plus primitive-op sequences (process / queue / continue / handle_event) on one layer, all "
+            "sequences up to a length then random. distinct = distinct (programs, schedule); non-trivial = some layer "
+            "paused and some event was queued.")
     budget = {"quick": 8000, "thorough": 300000}
     time_budget = {"quick": 25, "thorough": 400}
     fingerprints = ["mitmproxy.proxy.layer:Layer.handle_event", "mitmproxy.proxy.layer:Layer._Layer__process",
@@ -377,25 +520,57 @@ class Check(PropertyCheck):
                     "non-reentrant, complete consumption of handle_event's command generator by the caller"]
     parallel = False     # ~1500 cases/s in-process; the fork pool's IPC (long trace strings) costs more than it saves
 
+    def setup(self, tier):
+        self.known_selftest()
+
+    def known_selftest(self):
+        """C04 has no recorded finding: known() must excuse nothing, whatever the failure text; and the oracle
+        itself must fire on a doctored observation of each clause (so a silent oracle cannot pass)."""
+        case = {"nl": 0, "aos": 0, "tree": small_tree(0), "sched": [["e", 1], ["e", 5], ["b", 0, 1]]}
+        obs = self.impl(case)
+        assert obs["fails"] == [], obs["fails"]
+        for f in ("layer 1 started handling p5u1 while waiting for 1.0.1.0.o", "layer 1: handled+queued [] != arrivals []",
+                  "nextlayer: child/buffer has [], arrivals were []", "anything else"):
+            assert self.known(case, obs, f) is None
+        # a layer double that handles a queued event twice / out of order must be flagged by the direct oracle
+        ctx = make_ctx(); ly = ProgLayer(ctx, 1, SMALL_PROGS[0](0), [], {"cur": {}})
+        e1, e2 = make_event(ctx, 5, 0), make_event(ctx, 5, 1)
+        ly.arrivals = [(e1, False, False), (e2, False, False)]; ly.log = [("h", e2), ("h", e1)]
+        assert final_oracle({1: ly}, [1], ly, None, []), "order oracle is silent"
+        ly.log = [("h", e1), ("h", e1), ("h", e2)]
+        assert final_oracle({1: ly}, [1], ly, None, []), "exactly-once oracle is silent"
+
     def generate(self, rng, tier):
         # small scope first: fixed programs x every schedule over a small alphabet
         alpha = [["e", 0], ["e", 1], ["e", 5], ["b", 0, 1], ["b", 1, 2], ["c", 0, 3]]
         maxlen = 4 if tier == "quick" else 6
-        for pi, mk in enumerate(SMALL_PROGS):
-            progs = [mk(i) for i in LAYERS]
+        for pi in range(len(SMALL_PROGS)):
+            tree = small_tree(pi)
             for nlf, aos in ((1, 1), (0, 0), (1, 0)):
-                if tier == "quick" and (pi, nlf, aos) not in ((0, 1, 1), (1, 0, 0)): continue
+                if tier == "quick" and (pi, nlf, aos) not in ((0, 1, 1), (1, 0, 0), (2, 0, 0)): continue
                 for n in range(1, maxlen + 1):
+                    if tier == "quick" and pi == 2 and n == maxlen: continue
                     for s in itertools.product(alpha, repeat=n):
-                        yield {"nl": nlf, "aos": aos, "progs": progs, "sched": [list(x) for x in s]}
+                        yield {"nl": nlf, "aos": aos, "tree": tree, "sched": [list(x) for x in s]}
+        # the generator primitives one by one, every op sequence up to a length
+        palpha = [["p", 1], ["p", 5], ["q", 1], ["q", 5], ["k", 3], ["e", 0], ["b", 2]]
+        for pi in (0, 2):
+            tabs = SMALL_PROGS[pi](0)
+            for n in range(1, (4 if tier == "quick" else 6)):
+                for ops in itertools.product(palpha, repeat=n):
+                    yield {"prim": 1, "tabs": tabs, "ops": [list(o) for o in ops]}
         while True:
             pblock = rng.choice([0.15, 0.3, 0.5])
             pchild = rng.choice([0.3, 0.6, 0.9])
-            progs = [rand_prog(rng, i, pblock, pchild) for i in LAYERS]
+            tree = rand_tree(rng, pblock, pchild)
             labels = rng.choice([[0, 1, 2, 3, 4, 5, 6], [1, 1, 1, 5, 0], [1, 2, 5, 6]])
             for _ in range(4):
-                yield {"nl": 1 if rng.chance(0.7) else 0, "aos": rng.randint(0, 1), "progs": progs,
+                yield {"nl": 1 if rng.chance(0.7) else 0, "aos": rng.randint(0, 1), "tree": tree,
                        "sched": rand_sched(rng, rng.randint(1, 40), labels)}
+            nm = rng.choice([1, 2])
+            tabs = [rand_table(rng, 0, pblock, 0, nm) for _ in range(nm)]
+            yield {"prim": 1, "tabs": tabs,
+                   "ops": [[rng.choice("ppqkkeb"), rng.randint(0, 6)] for _ in range(rng.randint(1, 30))]}
 
     def impl(self, case):
         trace, fails = run_case(case)
@@ -405,7 +580,9 @@ class Check(PropertyCheck):
         return list(obs["fails"])
 
     def model_lines(self, case):
-        return ["run %d %d %s %s" % (case["nl"], case["aos"], " ".join(enc_prog(p) for p in case["progs"]), enc_sched(case["sched"]))]
+        if case.get("prim"):
+            return ["prim %s %s" % (enc_tabs(case["tabs"]), ",".join("%s%d" % (o[0], o[1]) for o in case["ops"]) or "-")]
+        return ["run %d %d %s %s" % (case["nl"], case["aos"], enc_tree(case["tree"]), enc_sched(case["sched"]))]
 
     def model_obs(self, case, replies):
         return replies[0]
@@ -420,26 +597,40 @@ class Check(PropertyCheck):
 
     def branches(self, case, obs):
         t, logs = obs["trace"].split("@")
-        out = ["nl" if case["nl"] else "no-nl"]
+        if case.get("prim"):
+            out = ["prim"]
+            if ":p" in t: out.append("prim:queued")
+            if "skip" in t: out.append("prim:precondition-skip")
+            if ":m1" in t: out.append("prim:handler-rebound")
+            return out
+        out = ["nl" if case["nl"] else "no-nl", "nodes=%d" % len(case["tree"])]
+        depth = {}
+        for n in case["tree"]:
+            depth[n["idx"]] = depth.get(n["parent"], 0) + 1
+        out.append("height=%d" % max(depth.values()))
         if ":p" in t or ":k" in t: out.append("queued-while-paused")
         if ":1|" in t: out.append("nl-handed-over")
         if "skip" in t: out.append("completion-without-target")
+        if ":m1" in t: out.append("handler-rebound")
         ll = logs.split("|")
-        for d, ids in ((1, [0]), (2, [1, 2]), (3, [3, 4])):
-            if any(ll[i] for i in ids): out.append("depth%d-active" % d)
+        for n, l in zip(case["tree"], ll):
+            if l: out.append("depth%d-active" % depth[n["idx"]])
+        out = sorted(set(out))
         if any("hk" in l for l in ll): out.append("completion-handled-as-plain-event")
         if any(("r%d" % r) in l and "s" in l for l in ll for r in range(1, 10)): out.append("resumed-with-reply")
         return out
 
     def neighbours(self, case, rng):
-        s = case["sched"]
+        key = "ops" if case.get("prim") else "sched"
+        s = case[key]
+        alts = (["p", 1], ["k", 1], ["q", 5]) if case.get("prim") else (["e", 1], ["b", 0, 1], ["c", 0, 1])
         for i in range(len(s)):
-            yield dict(case, sched=s[:i] + s[i + 1:])
-            for alt in (["e", 1], ["b", 0, 1], ["c", 0, 1]):
-                yield dict(case, sched=s[:i] + [alt] + s[i:])
+            yield {**case, key: s[:i] + s[i + 1:]}
+            for alt in alts:
+                yield {**case, key: s[:i] + [list(alt)] + s[i:]}
         for i in range(len(s) - 1):
             t = list(s); t[i], t[i + 1] = t[i + 1], t[i]
-            yield dict(case, sched=t)
+            yield {**case, key: t}
 
     def exhaustive(self, tier):
         return itertools.islice(self.generate(__import__("common.prng", fromlist=["Rng"]).Rng(5), "thorough"), 200000)
